@@ -1,3 +1,5 @@
+import os
+
 from .common import H
 
 # GALOIS_DEBUG_SKIP: Debug (asan) builds do not print gDebug lines. VERIF_NO_HANG_MONITOR: a rank that spins while it waits for a
@@ -27,6 +29,13 @@ def c18(tier):
         for np in (2, 4):
             runs.append(H("c18_gluon", "dist", 150, "1,1", env=ENV, mpi=np, params=dict(salt=10 + np, streaming=0),
                           timeout_per_case=15, timeout_base=150))
+    if os.environ.get("VERIF_C18_ASYNC_ENFORCED") == "1":
+        # opt-in (see the report / known finding C18:sync:async-resends-without-updates:enforced-metadata-mode): the apps'
+        # asynchronous loop under an enforced bitset/offsets/gids metadata mode; on the unfixed tree every such phase is
+        # given up with that key (exit code 3 per case)
+        for np in (2, 3):
+            runs.append(H("c18_gluon", "dist", 12 if tier == "quick" else 60, "2", env=ENV, mpi=np,
+                          params={"salt": 30 + np, "asyncmodes": 1, "async": 1, "maxnodes": 1200}, timeout_per_case=30, timeout_base=150))
     return runs
 
 
